@@ -2,7 +2,8 @@
 // its documented behaviour.  Blocks are filled with distinct tags and re-read after every step (disjoint / undisturbed);
 // the engine's exact-object memory model checks that every block lies inside one chunk.
 //   param0 = chunk capacity passed to the constructor, param1 = number of script steps, param2 = largest request size,
-//   param3 = 1: user-supplied initial buffer of param4 bytes placed at misalignment param5
+//   param3 = 1: user-supplied initial buffer of param4 bytes placed at misalignment param5, param6 = 1: the first request is one of
+//   {65536, 65537, 70000, 131073} bytes
 #include "sonic/allocator.h"
 #include "verif.h"
 #include <stdlib.h>
@@ -60,6 +61,10 @@ extern "C" int h_pool(void) {
   for (size_t s = 0; s < steps; s++) {
     size_t op = verif_concrete(verif_range(0, nb ? 2 : 0, "op"));   // 0 Malloc, 1 Realloc of an earlier block, 2 Realloc(null)
     size_t req = verif_range(0, maxreq, "size");
+    if (verif_param(6) && s == 0) {   // first request larger than the 64 KiB maximum chunk capacity (exercises the policy's clamp)
+      static const size_t kBig[] = {65536, 65537, 70000, 131073};
+      req = kBig[verif_concrete(verif_range(0, 3, "big"))]; op = 0;
+    }
     uint8_t tag = (uint8_t)(0xA0 + s);
     if (op == 0 || op == 2) {
       uint8_t* p = (uint8_t*)(op == 0 ? pool->Malloc(req) : pool->Realloc(nullptr, 0, req));
